@@ -3,7 +3,7 @@
    fields; the RMSD measures, renumbering, hydrogens and permutations are decided by the
    metamorphic correspondence (every variant scored by the real routines). *)
 From Verif Require Import PyLib ModelTypes Model_contact Spec_contact Model_superpose Spec_superpose
-  Proofs_superpose Proofs_invariance Proofs_rigid_rmsd Proofs_renumber Proofs_hydrogens Proofs_relabel.
+  Proofs_superpose Proofs_invariance Proofs_rigid_rmsd Proofs_renumber Proofs_hydrogens Proofs_relabel Model_zone Model_rmsd Proofs_renumber_rmsd.
 Open Scope Q_scope.
 
 (* every rigid motion (orthogonal matrix, any translation) preserves all squared distances ... *)
@@ -122,8 +122,26 @@ Theorem C11_added_hydrogens_fnat : forall g g' c decoy ref decoyH refH,
 Proof. exact fnat_with_added_hydrogens. Qed.
 Print Assumptions C11_added_hydrogens_fnat.
 
-(* PARTIAL: the RMSD values under renumbering and added hydrogens, and record permutations, are decided by the
-   metamorphic correspondence, not by theorems. Permutation + fast route + no enforcement: known finding F6. *)
+(* renumbering and the i-RMSD: the interface zone of the renumbered reference is the old zone with its numbers shifted, and
+   the fast i-RMSD computed with it (for the same rotation — the kernel is handed the very same coordinate lists) is the
+   same value *)
+Theorem C11_renumbering_izone : forall g, (forall x y, (x < y)%Z -> (g x < g y)%Z) -> forall c ref,
+  compute_izone c (map (renum g) ref) = map_res (map (gz g)) (compute_izone c ref).
+Proof. exact compute_izone_renumbered. Qed.
+Theorem C11_renumbering_irmsd : forall k rmat c check enforce decoy ref,
+  (do z <- compute_izone c (map (renum (fun n => n + k)%Z) ref);
+   irmsd_fast rmat z check enforce (map (renum (fun n => n + k)%Z) decoy) (map (renum (fun n => n + k)%Z) ref))
+  = (do z <- compute_izone c ref; irmsd_fast rmat z check enforce decoy ref).
+Proof. exact irmsd_pipeline_shifted. Qed.
+Print Assumptions C11_renumbering_irmsd.
+Theorem C11_renumbering_lrmsd : forall g, (forall x y, (x < y)%Z -> (g x < g y)%Z) -> forall rmat check enforce names decoy ref,
+  (do z <- compute_lzone (map (renum g) ref); lrmsd_fast rmat z check enforce names (map (renum g) decoy) (map (renum g) ref))
+  = (do z <- compute_lzone ref; lrmsd_fast rmat z check enforce names decoy ref).
+Proof. exact lrmsd_pipeline_renumbered. Qed.
+
+(* PARTIAL: the SQL RMSD routes under renumbering, the RMSD values under added hydrogens, and record
+   permutations are decided by the metamorphic correspondence, not by theorems.
+   Permutation + fast route + no enforcement: known finding F6. *)
 Example C11_example :
   let m : mat := ((0, -1, 0), (1, 0, 0), (0, 0, 1)) in
   orthogonal m /\
